@@ -235,3 +235,30 @@ M('iset-symdiff-multi', 'C11', 'setutils.py',
 M('iset-sort-keeps-dead', 'C11', 'setutils.py',
   "        self.item_list[:] = sorted_list\n        for i, item in enumerate(self.item_list):\n            self.item_index_map[item] = i\n        del self.dead_indices[:]\n\n    def index",
   "        self.item_list[:] = sorted_list\n        for i, item in enumerate(self.item_list):\n            self.item_index_map[item] = i\n        del self.dead_indices[1:]\n\n    def index")
+
+# ---------------------------------------------------------------- C12
+M('sock-find-offset-off-by-one', 'C12', 'socketutils.py',
+  "                    find_offset_start = -len(nxt) - len_delimiter + 1",
+  "                    find_offset_start = -len(nxt) - len_delimiter + 2")
+M('sock-recv-size-drops-surplus', 'C12', 'socketutils.py',
+  "            if extra_bytes:\n                last, self.rbuf = nxt[:-extra_bytes], nxt[-extra_bytes:]",
+  "            if extra_bytes:\n                last, self.rbuf = nxt[:-extra_bytes], (nxt[-extra_bytes:] if extra_bytes < 40 else nxt[-40:])")
+M('sock-recv-until-timeout-loses-buffer', 'C12', 'socketutils.py',
+  "            except socket.timeout:\n                self.rbuf = bytes(recvd)\n                msg = ('read %s bytes without finding delimiter: %r'",
+  "            except socket.timeout:\n                msg = ('read %s bytes without finding delimiter: %r'")
+M('sock-recv-size-timeout-drops-last-chunk', 'C12', 'socketutils.py',
+  "                    chunks.append(nxt)\n                    if timeout:\n                        cur_timeout = timeout - (time.time() - start)\n                        if cur_timeout <= 0.0:\n                            raise socket.timeout()\n                        self.sock.settimeout(cur_timeout)\n                    nxt = self.sock.recv(self._recvsize)\n                else:",
+  "                    if timeout:\n                        cur_timeout = timeout - (time.time() - start)\n                        if cur_timeout <= 0.0:\n                            raise socket.timeout()\n                        self.sock.settimeout(cur_timeout)\n                    chunks.append(nxt)\n                    nxt = self.sock.recv(self._recvsize)\n                else:")
+M('sock-peek-consumes-on-short-buffer', 'C12', 'socketutils.py',
+  "            data = self.recv_size(size, timeout=timeout)\n            self.rbuf = data + self.rbuf",
+  "            data = self.recv_size(size, timeout=timeout)\n            self.rbuf = data + self.rbuf if len(data) != 3 else self.rbuf")
+M('sock-send-partial-skips-byte', 'C12', 'socketutils.py',
+  "                    sbuf[0] = sbuf[0][sent:]", "                    sbuf[0] = sbuf[0][sent + (1 if sent == 5 else 0):]")
+M('sock-recv-until-maxsize-inclusive', 'C12', 'socketutils.py',
+  "                    elif len(recvd) > maxsize:", "                    elif len(recvd) >= maxsize:")
+M('sock-netstring-size-prefix-window', 'C12', 'socketutils.py',
+  "        return len(str(maxsize)) + 1  # len(str()) == log10\n\n    def read_ns",
+  "        return len(str(maxsize))  # len(str()) == log10\n\n    def read_ns")
+M('sock-recv-close-loses-buffer', 'C12', 'socketutils.py',
+  "                self.rbuf = recvd + self.rbuf\n                size_read = min(maxsize, len(self.rbuf))",
+  "                self.rbuf = recvd\n                size_read = min(maxsize, len(self.rbuf))")
